@@ -18,19 +18,39 @@ RULE = ('full product: all units of type_dict + unit_dict; all ordered pairs and
         'unknown units; each derived unit against its definition; every key (source dict + docstring '
         'table) of R, h, kb, c, m_e, m_p, P0, T0, V0; the 14 spectroscopic helpers in all pairs and '
         'paths; all 118 elements in both element tables; dict and formula compositions over a 10-element '
-        'alphabet.  A case is non-trivial when it is not the identity conversion of 1.0')
+        'alphabet.  Argument forms: every ordered pair of every type and every helper is also called with '
+        'Python ints, numpy scalars, num=None and 11 array forms (descending, unsorted with repeats, int64, '
+        'int32, 2-d, 0-d, length 1, empty, strided view, read-only), each as a four-call history (call, call '
+        'again, overwrite the result, edit the argument in place) against the element-by-element textbook '
+        'answer; helper arguments include negative numbers (imaginary modes) and zero.  '
+        'A case is non-trivial when it is not the identity conversion of 1.0')
 ASSUMPTIONS = ['numeric arguments are taken from a short list per clause (stated in bounds)',
                'tolerance of a tabulated decimal = one unit in its last written digit (read from the source '
                'literal); exact prefixes / rationals 1e-12; CODATA quantities at least 1e-7 (2014 vs 2018 sets)',
                'the calorie of the conversion table is the thermochemical one (4.184 J), as its 0.239006 says',
-               'composition alphabet: H C N O Al Cl Co Pt U Uuo with counts from a short list']
+               'composition alphabet: H C N O Al Cl Co Pt U Uuo with counts from a short list',
+               'lists / tuples are not arguments of convert_unit or the helpers (documented as float; the unchanged '
+               'code raises TypeError for them): numbers, numpy scalars and numpy arrays are',
+               'an identity conversion (a -> a) may return its argument itself; every other conversion and every '
+               'helper must return an array that shares no memory with its argument']
 EXPLANATION = ('every case calls the real pmutt.constants / pmutt.get_molecular_weight; expected values come from SI '
                'definitions, textbook relations or a second route through the same tables')
 
 VALUES = [1.0, 0.0, -2.5, 3.7e5, 1e-7]
 TEMPS = [-40.0, 0.0, 25.0, 100.0, 1000.0]
 WAVENUMBERS = [10.0, 806.5544005, 1000.0, 4000.0]       # 806.55 1/cm = 0.1 eV
+HELPER_W = WAVENUMBERS + [-w for w in WAVENUMBERS] + [0.0]   # negative = imaginary mode (pMuTT convention)
 DEBYE = [10.0, 175.0, 215.0, 1000.0]
+DEBYE_X = DEBYE + [-x for x in DEBYE] + [0.0]
+INTS = [1, 0, -3, 370000, 25]                   # integer-typed arguments of proportional conversions / helpers
+INT_TEMPS = [-40, 0, 25, 100, 1000]
+ARRAY_FORMS = ['float-ascending', 'float-descending', 'float-unsorted-repeated', 'int64', 'int32-descending',
+               '2d', '0d', 'len1', 'empty', 'view', 'readonly']
+SCALAR_FORMS = ['py-int', 'np.float64', 'np.int64']
+PAIR_FORMS = SCALAR_FORMS + ['none'] + ARRAY_FORMS
+HELPER_FORMS = SCALAR_FORMS + ['scaled'] + ARRAY_FORMS
+HELPER_FNS = (['%s_to_%s' % p for p in itertools.permutations(['energy', 'freq', 'temp', 'wavenumber'], 2)] +
+              ['wavenumber_to_inertia', 'inertia_to_temp', 'debye_to_einstein', 'einstein_to_debye'])
 UNKNOWN = ['', 'j', 'Joule', 'K ', ' K', 'kelvin', 'm^2', 'atm L', 'Torr', 'KJ', 'l', None, 5]
 MW_ELEMENTS = ['H', 'C', 'N', 'O', 'Al', 'Cl', 'Co', 'Pt', 'U', 'Uuo']
 MW_COUNTS = [1, 2, 0, 0.5, 10]
@@ -47,12 +67,19 @@ PLANNED_TAGS = (['type:' + t for t in U.TYPES] +
                  'table:P0', 'table:T0', 'table:V0', 'table:R=kb*Na', 'route:volume*pressure',
                  'route:energy', 'route:per-molecule', 'doc:row',
                  'helper:textbook', 'helper:inverse', 'helper:path', 'helper:inertia', 'helper:array',
-                 'helper:debye', 'elements:both', 'elements:neither', 'elements:legacy-symbol',
+                 'helper:debye', 'helper:negative', 'helper:zero', 'helper:homogeneous',
+                 'arg:py-int', 'arg:np-scalar', 'arg:none', 'arg:array-float', 'arg:array-int',
+                 'arg:array-unsorted', 'arg:array-2d', 'arg:array-0d', 'arg:array-empty', 'arg:array-view',
+                 'arg:array-readonly', 'history:unchanged', 'history:second-call',
+                 'history:result-overwritten', 'history:edited-in-place', 'mw:repeat', 'mw:dict-edited',
+                 'elements:both', 'elements:neither', 'elements:legacy-symbol',
                  'mw:dict-symbol', 'mw:dict-number', 'mw:dict-mixed', 'mw:formula', 'mw:formula-repeat'])
 
 
 def bounds(tier):
     return dict(values=VALUES, temperatures=TEMPS, wavenumbers=WAVENUMBERS, debye=DEBYE,
+                helper_wavenumbers=HELPER_W, debye_arguments=DEBYE_X, integers=INTS, integer_temperatures=INT_TEMPS,
+                argument_forms_pairs=PAIR_FORMS, argument_forms_helpers=HELPER_FORMS, history_depth=4,
                 unknown_units=[repr(u) for u in UNKNOWN], mw_elements=MW_ELEMENTS, mw_counts=MW_COUNTS,
                 mw_dict_max_elements=2 if tier == 'quick' else 3,
                 mw_formula_max_tokens=2 if tier == 'quick' else 3, product='full')
@@ -64,6 +91,8 @@ def shards(tier):
     out += [dict(kind='unknown'), dict(kind='derived')]
     out += [dict(kind='table', table=t) for t in TABLE_SHARDS]
     out += [dict(kind='helpers'), dict(kind='debye')]
+    out += [dict(kind='algebra-args', type=t) for t in U.TYPES]
+    out += [dict(kind='helper-args', part=p) for p in range(4)]
     out += [dict(kind='elements', table='atomic_weight'), dict(kind='elements', table='S_elements')]
     out += [dict(kind='mw-dict', first=e, n=2 if tier == 'quick' else 3) for e in MW_ELEMENTS]
     out += [dict(kind='mw-formula', first=e, n=2 if tier == 'quick' else 3) for e in MW_ELEMENTS]
@@ -294,6 +323,164 @@ def _k_derived(case, ctx):
         raise ValueError(rel)
 
 
+# ------------------------------------------------------------------ argument forms and call histories
+_FORM_TAG = {'float-ascending': 'arg:array-float', 'float-descending': 'arg:array-unsorted',
+             'float-unsorted-repeated': 'arg:array-unsorted', 'int64': 'arg:array-int',
+             'int32-descending': 'arg:array-int', '2d': 'arg:array-2d', '0d': 'arg:array-0d',
+             'len1': 'arg:array-float', 'empty': 'arg:array-empty', 'view': 'arg:array-view',
+             'readonly': 'arg:array-readonly'}
+SENTINEL = 9.0e9
+
+
+def build_array(form, fl, ints):
+    """(array argument, the array that owns its memory or None) for one of ARRAY_FORMS; fl = five floats,
+    ints = five ints, both in a fixed (unsorted) order."""
+    base = None
+    if form == 'float-ascending':
+        arr = np.array(sorted(fl), dtype=float)
+    elif form == 'float-descending':
+        arr = np.array(sorted(fl, reverse=True), dtype=float)
+    elif form == 'float-unsorted-repeated':
+        arr = np.array([fl[2], fl[0], fl[2], fl[4], fl[1], fl[0]], dtype=float)
+    elif form == 'int64':
+        arr = np.array(ints, dtype=np.int64)
+    elif form == 'int32-descending':
+        arr = np.array(sorted(ints, reverse=True), dtype=np.int32)
+    elif form == '2d':
+        arr = np.array(fl[:4], dtype=float).reshape(2, 2)
+    elif form == '0d':
+        arr = np.array(fl[3], dtype=float)
+    elif form == 'len1':
+        arr = np.array([fl[2]], dtype=float)
+    elif form == 'empty':
+        arr = np.array([], dtype=float)
+    elif form == 'view':
+        base = np.full(2 * len(fl), SENTINEL)
+        base[::2] = fl
+        arr = base[::2]
+    elif form == 'readonly':
+        arr = np.array(fl, dtype=float)
+        arr.setflags(write=False)
+    else:
+        raise ValueError(form)
+    return arr, base
+
+
+def _map(ref, nested):
+    if isinstance(nested, list):
+        return [_map(ref, v) for v in nested]
+    return ref(float(nested))
+
+
+def _same(arr, keep):
+    return arr.dtype == keep.dtype and arr.shape == keep.shape and bool(np.array_equal(arr, keep))
+
+
+def array_history(ctx, call, ref, form, fl, ints, sig, case, rtol, offset=0.0, aliasing_allowed=False):
+    """One array argument, four calls: call; call again; overwrite the returned array and call again; edit the
+    argument in place and call again.  Every answer is compared with ref() applied element by element to
+    Python floats taken from a private copy; the argument (and the array owning its memory) must keep its
+    content, dtype and shape."""
+    ctx.tag(_FORM_TAG[form])
+    arr, base = build_array(form, fl, ints)
+    keep = arr.copy()
+    keep_base = None if base is None else base.copy()
+
+    def expect(k):
+        e = _map(ref, k.tolist())
+        return e, np.abs(np.asarray(e, dtype=float)) + (offset or 0.0)
+
+    def unchanged():
+        return _same(arr, keep) and (base is None or _same(base, keep_base))
+
+    def answer(clause, y):
+        e, sc = expect(keep)
+        ok = ctx.true('array result has the shape of the argument', np.shape(y) == keep.shape, sig, case,
+                      list(np.shape(y)), list(keep.shape))
+        if ok and keep.size:
+            ctx.close(clause, y, e, sig, case, rtol=rtol, scale=sc if offset else None)
+
+    ctx.evals(4)
+    ctx.trans(4)
+    y1 = call(arr)
+    answer('array argument = element by element', y1)
+    ctx.tag('history:unchanged')
+    ctx.true('array argument is left unchanged by the call', unchanged(), sig, case,
+             dict(argument=arr.tolist(), owner=None if base is None else base.tolist()),
+             dict(argument=keep.tolist(), owner=None if base is None else keep_base.tolist()))
+    ctx.tag('history:second-call')
+    y2 = call(arr)
+    answer('repeated call with the same array = element by element', y2)
+    if not aliasing_allowed:
+        ctx.true('returned array shares no memory with the argument',
+                 not (isinstance(y2, np.ndarray) and np.shares_memory(y2, arr if base is None else base)),
+                 sig, case, 'shares memory', 'fresh array')
+        for y in (y1, y2):
+            if isinstance(y, np.ndarray) and y.ndim and y.size and y.flags.writeable:
+                y[...] = -SENTINEL
+        ctx.tag('history:result-overwritten')
+        ctx.true('overwriting the returned arrays leaves the argument alone', unchanged(), sig, case,
+                 arr.tolist(), keep.tolist())
+        answer('call after the returned arrays were overwritten = element by element', call(arr))
+    # restore (only matters after a failure above), then edit the caller's array in place
+    if arr.flags.writeable:
+        arr[...] = keep
+        new = (keep.ravel()[::-1] * 3).reshape(keep.shape)
+        arr[...] = new
+        keep = arr.copy()
+        if base is not None:
+            keep_base = base.copy()
+        ctx.tag('history:edited-in-place')
+        answer('array edited in place between two calls: answer for its new content', call(arr))
+        ctx.true('array argument is left unchanged by the call', unchanged(), sig, case, arr.tolist(),
+                 keep.tolist())
+
+
+def scalar_forms(form, fl, ints):
+    """[(argument, float it stands for)] for one of SCALAR_FORMS."""
+    if form == 'py-int':
+        return [(int(i), float(i)) for i in ints]
+    if form == 'np.int64':
+        return [(np.int64(i), float(i)) for i in ints]
+    if form == 'np.float64':
+        return [(np.float64(x), float(x)) for x in fl]
+    raise ValueError(form)
+
+
+def _k_pair_arg(case, ctx):
+    """One ordered pair of one type called with one argument form."""
+    t, a, b, form = case['type'], case['a'], case['b'], case['form']
+    sig = dict(group='algebra', type=t, initial=a, final=b, arg=form)
+    temp = t == 'temp'
+    fl, ints = (TEMPS, INT_TEMPS) if temp else (VALUES, INTS)
+    off = 500.0 if temp else 0.0
+    conv = _c().convert_unit
+
+    def ref(x):
+        # temperatures: textbook affine map; otherwise the scalar float route through the same table (which
+        # the definition / proportional clauses tie to the SI definitions)
+        return U.temp_ref(x, a, b) if temp else conv(x, a, b)
+
+    if form in SCALAR_FORMS:
+        ctx.tag('arg:py-int' if form == 'py-int' else 'arg:np-scalar')
+        for arg, x in scalar_forms(form, fl, ints):
+            ctx.evals(2)
+            ctx.trans()
+            e = ref(x)
+            ctx.close('integer-typed / numpy scalar argument = answer for the equal Python float',
+                      conv(arg, a, b), e, sig, case, rtol=1e-12 if temp else 1e-13, scale=(abs(e) + off) or 1.0)
+    elif form == 'none':
+        ctx.tag('arg:none')
+        ctx.evals(3)
+        e = U.temp_ref(0.0, a, b) if temp else conv(1.0, a, b)
+        ctx.close('num=None given explicitly = num omitted = conversion of 1 (of 0 for temperatures)',
+                  [conv(None, a, b), conv(initial=a, final=b), conv(num=None, initial=a, final=b)], [e, e, e],
+                  sig, case, rtol=1e-12 if temp else 1e-15, scale=(abs(e) + off) or 1.0)
+    else:
+        array_history(ctx, lambda arr: conv(arr, a, b), ref, form, fl, ints, sig, case,
+                      rtol=1e-12 if temp else 1e-13, offset=off, aliasing_allowed=(a == b))
+
+
 # ------------------------------------------------------------------ constant tables
 def table_keys(name):
     """Keys of a constant table: the dict literal in the accessor (if any) + its docstring table."""
@@ -479,6 +666,8 @@ def _k_helper(case, ctx):
     f_ab = getattr(c, '%s_to_%s' % (a, b))
     f_ba = getattr(c, '%s_to_%s' % (b, a))
     sig = dict(group='helper', fn='%s_to_%s' % (a, b))
+    if w <= 0:
+        ctx.tag('helper:negative' if w < 0 else 'helper:zero')
     ctx.tag('helper:textbook')
     y = f_ab(vals[a])
     ctx.evals()
@@ -518,6 +707,8 @@ def _k_inertia(case, ctx):
     c = _c()
     w = case['w']
     ctx.tag('helper:inertia')
+    if w < 0:
+        ctx.tag('helper:negative')
     h, kb, cc = c.h('J s'), c.kb('J/K'), c.c('cm/s')
     sig = dict(group='helper', fn='wavenumber_to_inertia')
     inertia = c.wavenumber_to_inertia(w)
@@ -540,6 +731,8 @@ def _k_debye(case, ctx):
     c = _c()
     x = case['x']
     ctx.tag('helper:debye')
+    if x <= 0:
+        ctx.tag('helper:negative' if x < 0 else 'helper:zero')
     sig = dict(group='helper', fn='debye_to_einstein')
     e = c.debye_to_einstein(x)
     ctx.evals(4)
@@ -551,6 +744,69 @@ def _k_debye(case, ctx):
     ctx.close('theta_D = theta_E / (pi/6)^(1/3)', d, x / (math.pi / 6.0) ** (1.0 / 3.0), sig, case, rtol=1e-14)
     ctx.close('helpers are pairwise inverse', c.debye_to_einstein(d), x,
               dict(sig, inverse='debye_to_einstein'), case, rtol=1e-14)
+
+
+def helper_ref(name):
+    """(textbook function of one float, degree of homogeneity, relative tolerance) of a helper."""
+    c = _c()
+    h, kb, cc = c.h('J s'), c.kb('J/K'), c.c('cm/s')
+    if name == 'wavenumber_to_inertia':
+        return (lambda x: h / (8.0 * math.pi ** 2 * cc * x)), -1, 1e-12
+    if name == 'inertia_to_temp':
+        # goes through the eV entries of h and kb and the eV factor (see _k_inertia)
+        tol = max(U.repr_ulp(c.kb('eV/K')), U.repr_ulp(c.h('eV s')), U.repr_ulp(kb), U.repr_ulp(h), unit_tol('eV'))
+        return (lambda x: (h / 2.0 / math.pi) ** 2 / (2.0 * x * kb)), -1, tol
+    if name == 'debye_to_einstein':
+        return (lambda x: (math.pi / 6.0) ** (1.0 / 3.0) * x), 1, 1e-14
+    if name == 'einstein_to_debye':
+        return (lambda x: x / (math.pi / 6.0) ** (1.0 / 3.0)), 1, 1e-14
+    a, b = name.split('_to_')
+    k = _node_values(1.0)                          # E = h nu = kB T = h c w, per unit wavenumber
+    return (lambda x: x / k[a] * k[b]), 1, 1e-12
+
+
+def helper_arguments(name):
+    """Five floats (both signs; zero where the helper is defined at zero) and five ints for a helper."""
+    c = _c()
+    src = name.split('_to_')[0]
+    w5 = WAVENUMBERS + [215.0]
+    signs = [1.0, -1.0, 1.0, -1.0, 1.0]
+    if name in ('wavenumber_to_inertia', 'inertia_to_temp'):
+        if src == 'inertia':
+            mags = [c.h('J s') / (8.0 * math.pi ** 2 * w * c.c('cm/s')) for w in w5]
+        else:
+            mags = w5
+        return [s * m for s, m in zip(signs, mags)], [1, -2, -3, 370000, 25]
+    if src in ('debye', 'einstein'):
+        return [10.0, -175.0, 215.0, -1000.0, 0.0], INTS
+    k = _node_values(1.0)[src]
+    return [s * k * w for s, w in zip(signs, WAVENUMBERS)] + [0.0], INTS
+
+
+def _k_helper_arg(case, ctx):
+    """One helper called with one argument form."""
+    name, form = case['fn'], case['form']
+    fn = getattr(_c(), name)
+    ref, degree, tol = helper_ref(name)
+    fl, ints = helper_arguments(name)
+    sig = dict(group='helper', fn=name, arg=form)
+    if form in SCALAR_FORMS:
+        ctx.tag('arg:py-int' if form == 'py-int' else 'arg:np-scalar')
+        for arg, x in scalar_forms(form, fl, ints):
+            ctx.evals()
+            ctx.close('integer-typed / numpy scalar argument = answer for the equal Python float', fn(arg), ref(x),
+                      sig, case, rtol=tol)
+    elif form == 'scaled':
+        ctx.tag('helper:homogeneous')
+        for x in fl:
+            for k in (-1.0, 3.0):
+                if x == 0.0:
+                    continue
+                ctx.evals(2)
+                ctx.close('helper is homogeneous (odd): f(k x) = k^degree f(x), k in {-1, 3}', fn(k * x),
+                          k ** degree * fn(x), sig, case, rtol=1e-13)
+    else:
+        array_history(ctx, fn, ref, form, fl, ints, sig, case, rtol=tol)
 
 
 # ------------------------------------------------------------------ element tables
@@ -624,6 +880,21 @@ def _k_mw_dict(case, ctx):
     ctx.close('molar mass = sum of count * atomic weight', obs, math.fsum(terms), sig, case, rtol=1e-13,
               scale=sum(abs(t) for t in terms) + 1.0)
     ctx.true('composition dictionary is left unchanged', comp == before, sig, case, comp, before)
+    # the same dictionary again, then the same dictionary object with edited counts
+    ctx.tag('mw:repeat')
+    ctx.evals(2)
+    ctx.close('repeated call with the same composition = sum of count * atomic weight',
+              pmutt.get_molecular_weight(comp), math.fsum(terms), sig, case, rtol=1e-13,
+              scale=sum(abs(t) for t in terms) + 1.0)
+    ctx.tag('mw:dict-edited')
+    for i, k in enumerate(list(comp)):
+        comp[k] = 2 * comp[k] + 1 + i
+    edited = dict(comp)
+    terms = [n * _weight_other_key(k) for k, n in comp.items()]
+    ctx.close('composition edited in place between two calls: molar mass of its new content',
+              pmutt.get_molecular_weight(comp), math.fsum(terms), sig, case, rtol=1e-13,
+              scale=sum(abs(t) for t in terms) + 1.0)
+    ctx.true('composition dictionary is left unchanged', comp == edited, sig, case, comp, edited)
 
 
 def _k_mw_formula(case, ctx):
@@ -642,9 +913,13 @@ def _k_mw_formula(case, ctx):
     terms = [n * _weight_other_key(k) for k, n in comp.items()]
     ctx.close('molar mass = sum of count * atomic weight', obs, math.fsum(terms), sig, case, rtol=1e-13,
               scale=sum(abs(t) for t in terms) + 1.0)
+    ctx.evals()
+    ctx.close('repeated call with the same composition = sum of count * atomic weight',
+              pmutt.get_molecular_weight(formula), math.fsum(terms), sig, case, rtol=1e-13,
+              scale=sum(abs(t) for t in terms) + 1.0)
 
 
-_KINDS = {'member': _k_member, 'pair': _k_pair, 'triple': _k_triple, 'cross': _k_cross, 'unknown': _k_unknown,
+_KINDS = {'pair-arg': _k_pair_arg, 'helper-arg': _k_helper_arg, 'member': _k_member, 'pair': _k_pair, 'triple': _k_triple, 'cross': _k_cross, 'unknown': _k_unknown,
           'definition': _k_definition, 'derived': _k_derived, 'table': _k_table, 'rkb': _k_rkb, 'doc': _k_doc,
           'helper': _k_helper, 'helper-array': _k_helper_array, 'inertia': _k_inertia, 'debye': _k_debye,
           'element': _k_element, 'element-keys': _k_element_keys, 'mw-dict': _k_mw_dict,
@@ -741,16 +1016,28 @@ def run_shard(shard, ctx):
                 for key in keys:
                     _run(ctx, dict(kind='table', table=name, key=key))
     elif kind == 'helpers':
-        for w in WAVENUMBERS:
+        for w in HELPER_W:
             for a, b in itertools.permutations(NODES, 2):
                 _run(ctx, dict(kind='helper', a=a, b=b, w=w))
-            _run(ctx, dict(kind='inertia', w=w))
+            if w:                                   # a rotational constant of 0 has no moment of inertia
+                _run(ctx, dict(kind='inertia', w=w))
         names = ['%s_to_%s' % p for p in itertools.permutations(NODES, 2)]
         for name in names + ['wavenumber_to_inertia', 'inertia_to_temp']:
             _run(ctx, dict(kind='helper-array', fn=name))
     elif kind == 'debye':
-        for x in DEBYE:
+        for x in DEBYE_X:
             _run(ctx, dict(kind='debye', x=x))
+    elif kind == 'algebra-args':
+        t = shard['type']
+        ok = [u for u in units_of(t) if _accepted(u) and c.type_dict.get(u) == t]
+        for a, b in itertools.product(ok, repeat=2):
+            for form in PAIR_FORMS:
+                _run(ctx, dict(kind='pair-arg', type=t, a=a, b=b, form=form))
+    elif kind == 'helper-args':
+        for i, name in enumerate(HELPER_FNS):
+            if i % 4 == shard['part']:
+                for form in HELPER_FORMS:
+                    _run(ctx, dict(kind='helper-arg', fn=name, form=form))
     elif kind == 'elements':
         _run(ctx, dict(kind='element-keys', table=shard['table']))
         for z in range(1, 119):
